@@ -412,9 +412,12 @@ def gen_history(rng):
     """2-4 calls (compress_flood_fill_regions / RegionCoreTree uses) made one after the other in ONE interpreter.
     Each call is judged on its own and must equal the same call made in a fresh interpreter (= the stateless model)."""
     calls = []
-    for _ in range(rng.randint(2, 4)):
+    ncalls = rng.randint(2, 4)
+    for k in range(ncalls):
         r = rng.random()
-        if r < 0.45:
+        if k < ncalls - 1 and rng.random() < 0.3:
+            c = gen_failing_call(rng)
+        elif r < 0.45:
             c = gen_blocks_late(rng, small=rng.random() < 0.5)
         elif r < 0.6:
             c = gen_tree_blocks_late(rng)
@@ -431,6 +434,71 @@ def gen_history(rng):
                      container=rng.choice(["set", "list"]), tags=sorted(set(tags)), order="sorted", valid=True)
         calls.append(c)
     return dict(mode="history", calls=calls)
+
+
+WIDE_DTYPES = ["uint16", "int32", "uint32", "int64", "uint64"]      # hold every value the documented code computes
+NARROW_DTYPES = ["int16", "uint8", "int8"]                            # 1 << 15 does not fit: observed, not judged
+
+
+def gen_numpy(rng):
+    """Coordinates and core numbers given as numpy scalars of one integer dtype (keys and values of the targets
+    dict / arguments of add_core).  Chips with x or y >= 128 are always present."""
+    r = rng.random()
+    if r < 0.25:
+        c = gen_tree_case(rng) if rng.random() < 0.5 else gen_tree_blocks_late(rng)
+        if c["level"] == 0:
+            c["adds"] += [[rng.randrange(128, 256), rng.randrange(256), rng.randrange(18)],
+                          [rng.randrange(256), rng.randrange(128, 256), rng.randrange(18)]]
+    else:
+        c = gen_blocks_late(rng, small=True) if r < 0.4 else gen_case(rng, 0, "quick")
+        have = {(t[0], t[1]) for t in c["targets"]}
+        for chip in [(rng.randrange(128, 256), rng.randrange(256)), (rng.randrange(256), rng.randrange(128, 256)), (255, 255)]:
+            if chip not in have:
+                have.add(chip)
+                c["targets"].insert(rng.randint(0, len(c["targets"])), [chip[0], chip[1], sorted(rand_cores(rng, 1, 2))])
+    c["dtype"] = rng.choice(WIDE_DTYPES)
+    c["tags"] = sorted(set(c.get("tags", []) + ["numpy"]))
+    return c
+
+
+def gen_failing_call(rng):
+    """A call that raises part-way: an entry outside the space at a random position of the targets dict, or a
+    caller's mapping whose iteration fails after some items."""
+    if rng.random() < 0.6:
+        c = gen_malformed(rng)
+        if len(c["targets"]) < 3:
+            c["targets"] = [[rng.randrange(256), rng.randrange(256), sorted(rand_cores(rng))] for _ in range(4)] + c["targets"]
+        return c
+    c = gen_case(rng, 0, "quick")
+    c["targets"] = c["targets"][:40]
+    c["raise_after"] = rng.randint(1, max(1, len(c["targets"]) - 1))
+    c["valid"] = False
+    c["nomodel"] = True
+    c["tags"] = ["raising-mapping"]
+    return c
+
+
+def gen_tree_rw(rng):
+    """ONE RegionCoreTree object: add_core calls interleaved with complete traversals (list() of the generator);
+    every traversal is judged against the cores added so far."""
+    level = rng.choice([0, 0, 0, 1, 2, 3])
+    base = gen_tree_blocks_late(rng) if (level == 0 and rng.random() < 0.4) else gen_tree_case(rng)
+    if base["level"] != level:
+        side = 4 ** (4 - level)
+        base = dict(mode="tree", level=level, adds=[[rng.randrange(side), rng.randrange(side), rng.randrange(18)]
+                                                    for _ in range(rng.randint(3, 25))])
+    adds = [a for a in base["adds"] if 0 <= a[0] < 4 ** (4 - level) and 0 <= a[1] < 4 ** (4 - level) and 0 <= a[2] < 18][:320]
+    ops = [["add"] + a for a in adds]
+    cuts = sorted({rng.randint(0, len(ops)) for _ in range(rng.randint(1, 3))} | ({len(ops) - 1} if len(ops) > 1 and rng.random() < 0.6 else set()))
+    out = []
+    for i, op in enumerate(ops):
+        if i in cuts:
+            out.append(["read"])
+            if rng.random() < 0.3:
+                out.append(["read"])
+        out.append(op)
+    out.append(["read"])
+    return dict(mode="tree_rw", level=level, ops=out)
 
 
 def clean(c):
@@ -612,8 +680,17 @@ def run(chk, args):
                 cases.append(gen_history(rng))
             elif i % 10 == 6:
                 cases.append(gen_blocks_late(rng))
+            elif i % 10 == 7:
+                cases.append(gen_tree_rw(rng))
+            elif i % 10 == 2:
+                cases.append(gen_numpy(rng))
             else:
                 cases.append(gen_case(rng, i, chk.tier))
+        for dt in NARROW_DTYPES:
+            lim = 128 if dt == "int8" else 256
+            cases.append(dict(mode="compress", container="list", order="sorted", tags=["numpy-narrow"], valid=False,
+                              nomodel=True, probe=dt, dtype=dt,
+                              targets=[[3, 3, [1, 17]], [100, 7, [2]], [lim - 1, lim - 1, [0]], [15, 15, [5]]]))
         # a whole machine for one core, and the whole machine but one chip for another
         cases.append(expand(dict(mode="compress", rects=[[0, 0, 256, 256, [7]]], container="set", tags=["full256"],
                                  order="sorted", valid=True)))
@@ -658,6 +735,22 @@ def run(chk, args):
     # a history is judged call by call: every call on its own by the oracle, and against the stateless model
     fc, fo = [], []
     for c, o in zip(cases, outs):
+        if c["mode"] == "tree_rw":
+            chk.count("tree objects re-read while being filled")
+            adds_before, k, nadd = [], 0, 0
+            if o[0] != "ok":
+                fc.append(dict(mode="tree", level=c["level"], adds=[op[1:] for op in c["ops"] if op[0] == "add"], _rw=(c, -1)))
+                fo.append(o)
+                continue
+            for op in c["ops"]:
+                if op[0] == "add":
+                    adds_before.append(op[1:])
+                else:
+                    fc.append(dict(mode="tree", level=c["level"], adds=list(adds_before), tags=["read-%d" % k], _rw=(c, k)))
+                    fo.append(["ok", o[1][:len(adds_before)], o[2][k]])
+                    k += 1
+                    chk.count("tree reads judged")
+            continue
         if c["mode"] != "history":
             fc.append(c)
             fo.append(o)
@@ -693,7 +786,14 @@ def run(chk, args):
             if o[0] == "ok":
                 for lv in sorted({(w >> 16) & 3 for w, m in o[2]}):
                     chk.count("emits-level-%d" % lv)
-            chk.note_case(c["targets"], nontrivial=(o[0] == "ok" and len(c["targets"]) >= 2 and (merged or len(o[2]) >= 2)))
+            chk.note_case([c["targets"], c.get("dtype")], nontrivial=(o[0] == "ok" and len(c["targets"]) >= 2 and (merged or len(o[2]) >= 2)))
+            if c.get("dtype"):
+                chk.count("numpy dtype:" + c["dtype"])
+            if c.get("probe"):
+                t_ = {(t[0], t[1]): set(t[2]) for t in c["targets"]}
+                w_ = oracle_compress(t_, o)
+                chk.coverage.setdefault("narrow_numpy_dtypes_observed_not_judged", {})[c["probe"]] = (
+                    "exact" if w_ is None else "%s (%s)" % (w_[1], o[1] if o[0] == "other" else o[0]))
             if c["valid"]:
                 targets = {(t[0], t[1]): set(t[2]) for t in c["targets"]}
                 why = oracle_compress(targets, o)
@@ -731,6 +831,10 @@ def run(chk, args):
                            dict(case=hcase, observed_last_call=hout if len(json.dumps(hout)) < 60000 else hout[0],
                                 note="every call starts from a freshly imported rig in the replay driver; the last "
                                      "call is the one judged"))
+            continue
+        if c["mode"] == "tree" and "_rw" in c:
+            chk.fail_input("reuse-" + why[0], "one RegionCoreTree(level=0) object, traversal #%d (after %d add_core calls): %s"
+                           % (c["_rw"][1] + 1, len(c["adds"]), why[1]), dict(case=clean(c["_rw"][0]), observed_read=o[2]))
             continue
         if c["mode"] == "tree":
             chk.fail_input(why[0], "RegionCoreTree(level=0), sorted traversal: " + why[1], dict(case=clean(c), observed=o))
@@ -778,7 +882,7 @@ def run(chk, args):
         try:
             exprs, idx = [], []
             for i, (c, o) in enumerate(zip(cases, outs)):
-                if o[0] in ("skipped", "hang"):
+                if o[0] in ("skipped", "hang") or c.get("nomodel"):
                     continue
                 if not thorough and c["mode"] == "compress" and len(o[1] if o[0] == "ok" else o[2]) > 20000:
                     chk.count("model evaluation left to the thorough tier (> 20000 cores)")
@@ -810,6 +914,12 @@ def run(chk, args):
                     chk.disagree("call #%d of a history made in one interpreter differs from the same call in a fresh "
                                  "interpreter (the stateless model): model %r, implementation %r" % (hi + 1, shown[0], shown[1]),
                                  dict(case=dict(mode="history", calls=[clean(q) for q in hist["calls"][:hi + 1]])))
+                    continue
+                if not same and bad < 3 and "_rw" in c:
+                    bad += 1
+                    chk.disagree("one tree object, traversal #%d differs from a fresh tree given the same %d add_core calls: "
+                                 "model %r, implementation %r" % (c["_rw"][1] + 1, len(c["adds"]), shown[0], shown[1]),
+                                 dict(case=clean(c["_rw"][0])))
                     continue
                 if not same and bad < 3:
                     bad += 1
